@@ -239,7 +239,7 @@ MidIds == (OciMid \X {"none"} \X {"def"})
 BigIds == ((OciBig \ {"multi"}) \X {"none"} \X {"def"}) \cup MultiIds
           \cup ({"art"} \X {"chain3"} \X {"def"})
           \cup ({"nested", "blobent", "single2"} \X {"symroot", "dotslash"} \X {"def"})
-BigBfsIds == {"idx2"} \X {"none"} \X {"def"}         \* (C09_mc_code_big.cfg: 0.87 M states, run by hand)
+BigBfsIds == {"idx2"} \X {"none"} \X {"def"}         \* (C09_mc_big.cfg: 0.87 M states, run by hand)
 \* the 7 entry archives explored exhaustively in the thorough tier; the others (same automaton up to blob
 \* attributes) and the 8 entry ones are explored by random orders (C09_sim_big.cfg)
 MidBfsIds == ({"single2", "nested", "blobent", "unkent", "emptyent", "sharedent", "idxsame"} \X {"none"} \X {"def"})
